@@ -164,6 +164,15 @@ def step (st : St) (line : String) : St × String :=
     | some h, some loc, some objid, some genno, some (o, []) =>
       (st, " ".intercalate (showObjToks (getobj (tablePrims st.table) h loc objid genno o)))
     | _, _, _, _, _ => (st, "bad-op")
+  | "trace" :: loc :: objid :: genno :: toks =>
+    match st.handler, parseLoc loc, objid.toNat?, genno.toNat?, parseObj toks with
+    | some h, some loc, some objid, some genno, some (o, []) =>
+      let r := getobjSt (tablePrims st.table) h false {} loc objid genno o
+      let show1 : Call → String
+        | .str b => "s:" ++ hexOrDash b
+        | .payload m raw => (if m then "m:" else "p:") ++ hexOrDash raw
+      (st, if r.2.2.isEmpty then "-" else " ".intercalate (r.2.2.map show1))
+    | _, _, _, _, _ => (st, "bad-op")
   | ["spec.enc", m, key, objid, genno, iv, data] =>
     match parseMethod m, bytesOfHex key, objid.toNat?, genno.toNat?, bytesOfHex iv, bytesOfHex data with
     | some m, some key, some objid, some genno, some iv, some data =>
